@@ -23,6 +23,7 @@ char *__real_strdup(const char *);
 int __real_pthread_mutex_trylock(pthread_mutex_t *);
 int __real_pthread_mutex_unlock(pthread_mutex_t *);
 int __real_usleep(unsigned);
+char *__real_qstrreplace(const char *mode, char *srcstr, const char *tokstr, const char *word);
 
 int vf_ledger_on = 0;
 long vf_alloc_count = 0;
@@ -135,6 +136,25 @@ int __wrap_pthread_mutex_unlock(pthread_mutex_t *m) {
 int __wrap_usleep(unsigned us) {
     if (vf_hook_usleep) return vf_hook_usleep(us);
     return __real_usleep(us);
+}
+
+// progress budget for the INI ${} expansion loop: qconfig calls qstrreplace("sn",...) once per
+// expansion round.  Over budget the wrapper returns an empty string, which makes the library's
+// loop end normally (no leak, no longjmp), and flags the case.
+long vf_replace_budget = 0;      // 0 = off
+long vf_replace_calls = 0;
+long vf_replace_bytes = 0;
+int vf_replace_exceeded = 0;
+char *__wrap_qstrreplace(const char *mode, char *srcstr, const char *tokstr, const char *word) {
+    if (vf_replace_budget > 0 && mode && mode[0] == 's' && mode[1] == 'n' && srcstr) {
+        vf_replace_calls++;
+        vf_replace_bytes += (long)strlen(srcstr);
+        if (vf_replace_calls > vf_replace_budget || vf_replace_bytes > (8L << 20) || strlen(srcstr) > (1u << 20)) {
+            vf_replace_exceeded = 1;
+            return __real_strdup("");
+        }
+    }
+    return __real_qstrreplace(mode, srcstr, tokstr, word);
 }
 
 // popen stub: never execute anything from fuzzed configuration text
